@@ -4,6 +4,8 @@ E1 on CanProtect.protect / CanUnprotect.unprotect with pairs of in-memory contex
 over the stand-in crypto modules of /verif/shims (bound to published vectors by shims/shimtest.py)."""
 
 import itertools
+import sys
+import os
 
 from .. import core, refcodec as rc
 from ..core import Result, Violation
@@ -570,6 +572,81 @@ def context_selection(res, order, sent_idc):
     res.transitions += 1
 
 
+def file_backed(res, alg, sidlen, ridlen, idc):
+    hook = sys.unraisablehook
+    sys.unraisablehook = lambda u: None      # a context refused at load complains from its __del__ (it never got that far): not our subject
+    try:
+        _file_backed(res, alg, sidlen, ridlen, idc)
+    finally:
+        import gc
+        gc.collect()
+        sys.unraisablehook = hook
+
+
+def _file_backed(res, alg, sidlen, ridlen, idc):
+    """The same round trip with both contexts loaded from directories (FilesystemSecurityContext): every ID length the algorithm
+    admits loads and works, one more byte is refused at load."""
+    import json as _json
+    import shutil
+    import tempfile
+    maxid = o.algorithms[alg].iv_bytes - 6
+    sid = bytes(range(0xA0, 0xA0 + sidlen))
+    rid = bytes(range(0xB0, 0xB0 + ridlen))
+    if sid == rid:
+        return
+    case = {"family": "file-backed", "alg": alg, "sidlen": sidlen, "ridlen": ridlen, "idc": idc}
+    res.evaluations += 1
+    base = tempfile.mkdtemp(prefix="c11-fs-")
+    try:
+        ctxs = []
+        for name, a, b in (("cl", sid, rid), ("sv", rid, sid)):
+            d = os.path.join(base, name)
+            os.mkdir(d)
+            st = {"sender-id_hex": a.hex(), "recipient-id_hex": b.hex(), "secret_hex": SECRET.hex(), "salt_hex": SALT.hex(), "algorithm": alg}
+            if idc is not None:
+                st["id-context_hex"] = idc.hex()
+            _json.dump(st, open(os.path.join(d, "settings.json"), "w"))
+            try:
+                ctxs.append(o.FilesystemSecurityContext(d))
+            except Exception as e:
+                ctxs.append(e)
+        admissible = max(sidlen, ridlen) <= maxid
+        loaded = [not isinstance(c, Exception) for c in ctxs]
+        if admissible and not all(loaded):
+            res.violate(Violation("admissible-ids-refused", "contexts with IDs of %d/%d bytes load (maximum %d)" % (sidlen, ridlen, maxid),
+                                  [core.exc_desc(c) for c in ctxs if isinstance(c, Exception)], "oscore.py:FilesystemSecurityContext._load", case, key="fs-load"))
+        elif not admissible and any(loaded):
+            res.violate(Violation("overlong-ids-accepted", "refused at load", "loaded", "oscore.py:FilesystemSecurityContext._load", case, key="fs-overlong"))
+        elif admissible:
+            cl, sv = ctxs
+            sv.recipient_replay_window.initialize_empty()
+            try:
+                outer, rid_cl = cl.protect(Message(code=codes.POST, uri_path=["x"], payload=b"pl"))
+                inner, rid_sv = sv.unprotect(wire(outer)[0])
+                resp, _ = sv.protect(Message(code=codes.CHANGED, payload=b"re"), rid_sv)
+                back, _ = cl.unprotect(wire(resp)[0], rid_cl)
+                ok = inner.payload == b"pl" and tuple(inner.opt.uri_path) == ("x",) and back.payload == b"re" and back.code == codes.CHANGED
+            except Exception as e:
+                ok = False
+                back = e
+            if not ok:
+                res.violate(Violation("roundtrip-raises", "request and response round trip", core.exc_desc(back) if isinstance(back, Exception) else "fields differ",
+                                      core.site_of(back) if isinstance(back, Exception) else "oscore.py", case, key="fs-roundtrip"))
+        for c in ctxs:
+            if not isinstance(c, Exception):
+                c.lockfile = None
+        res.traces += 1
+        res.signatures.add(core.digest(("fs", alg, sidlen, ridlen, idc)))
+        res.outcomes.add(core.digest(("fs", admissible)))
+    finally:
+        try:
+            import filelock
+            filelock._process_died()
+        except Exception:
+            pass
+        shutil.rmtree(base, ignore_errors=True)
+
+
 # ------------------------------------------------------------------------------------------ through the transports
 # The layer right above protect / unprotect on both sides: the client's OSCORE transport (aiocoap.transports.oscore, which keeps
 # the request identifiers for responses, Echo retries and notifications) against the server's site wrapper
@@ -581,14 +658,14 @@ T_CLI = ("2001:db8::c", 40000)
 T_SRV = ("2001:db8::1", 5683)
 
 
-def transport_run(res, scenario, lost_window, attack):
+def transport_run(res, scenario, lost_window, attack, non=False):
     import asyncio
     from ..world import World
     from aiocoap import resource, GET, error
     from aiocoap.credentials import CredentialsMap
     from aiocoap.oscore_sitewrapper import OscoreSiteWrapper
     from aiocoap.transports.oscore import TransportOSCORE, OSCOREAddress
-    case = {"family": "transport", "scenario": scenario, "lost_window": lost_window, "attack": attack}
+    case = {"family": "transport", "scenario": scenario, "lost_window": lost_window, "attack": attack, "non": non}
     res.evaluations += 1
     w = World()
     try:
@@ -618,6 +695,9 @@ def transport_run(res, scenario, lost_window, attack):
 
         def ask(path, q, observe=False):
             m = Message(code=GET, uri_path=[path], uri_query=["n=%d" % q])
+            if non:
+                import aiocoap
+                m.transport_tuning = aiocoap.Unreliable      # non-confirmable requests go the same way, Echo recovery included
             if observe:
                 m.opt.observe = 0
             m.remote = OSCOREAddress(cl, cli.remote(T_SRV))
@@ -695,7 +775,7 @@ def transport_run(res, scenario, lost_window, attack):
             want = {"first": b"N0|n=1", "notifications": [b"N1|n=1", b"N2|n=1", b"N3|n=1"], "errors": []}
         if got != want:
             res.violate(Violation("transport-roundtrip", core.jsonable(want), core.jsonable(got), "transports/oscore.py:_request", case, trace=w.trace[-30:],
-                                  key="%s%s" % (scenario, ":echo" if lost_window else "")))
+                                  key="%s%s%s" % (scenario, ":echo" if lost_window else "", ":non" if non else "")))
         for msg, e in w.loop_exceptions():
             res.violate(Violation("loop-exception", "none", core.exc_desc(e) if e else msg, core.site_of(e) if e else "loop", case,
                                   key="transport:" + (type(e).__name__ if e else msg[:40])))
@@ -706,8 +786,8 @@ def transport_run(res, scenario, lost_window, attack):
                 break
         res.traces += 1
         res.transitions += len(w.sent)
-        res.signatures.add(core.digest(("transport", scenario, lost_window, attack)))
-        res.states.add(core.digest(("transport", scenario, lost_window, attack, core.jsonable(got))))
+        res.signatures.add(core.digest(("transport", scenario, lost_window, attack, non)))
+        res.states.add(core.digest(("transport", scenario, lost_window, attack, non, core.jsonable(got))))
         res.outcomes.add(core.digest(("transport", core.jsonable(got) == core.jsonable(want))))
     finally:
         w.dispose()
@@ -743,10 +823,18 @@ def job(arg):
         for nreq in range(1, 13):
             for start in (1, 10):
                 crash_binding(res, nreq, start)
+        for alg in ALGS:
+            maxid = o.algorithms[alg].iv_bytes - 6
+            for sl in sorted({0, 1, maxid - 1, maxid, maxid + 1}):
+                for rl in sorted({0, 1, maxid, maxid + 1}):
+                    if sl >= 0:
+                        file_backed(res, alg, sl, rl, None if (sl + rl) % 2 else b"8bytectx")
         for scenario in ("one", "two-sequential", "two-concurrent", "observe"):
             for lost in (False, True):
                 for attack in (None, "swap") if scenario == "two-concurrent" else (None,):
                     transport_run(res, scenario, lost, attack)
+                    if attack is None:
+                        transport_run(res, scenario, lost, attack, non=True)
         for order in itertools.permutations(range(len(IDCS))):
             for sent in IDCS + (b"unknown!",):
                 context_selection(res, order, sent)
@@ -804,8 +892,10 @@ def replay(case, scenario, seed):
         binding(res, case["own_piv"])
     elif fam == "echo-challenge":
         echo_challenge(res, case["alg"])
+    elif fam == "file-backed":
+        file_backed(res, case["alg"], case["sidlen"], case["ridlen"], case["idc"])
     elif fam == "transport":
-        transport_run(res, case["scenario"], case["lost_window"], case["attack"])
+        transport_run(res, case["scenario"], case["lost_window"], case["attack"], case.get("non", False))
     elif fam == "context-selection":
         context_selection(res, tuple(case["order"]), case["sent_idc"])
     elif fam == "crash-binding":
